@@ -212,6 +212,13 @@ def ops : List (String × Op) := [
         pure (if (cdsCodons ⟨blocks, st⟩ frames).isEmpty then "fail internal-error,codonless-cds"
               else "fail internal-error")
       | _ => pure "fail unreadable-answer"),
+  ("seed", do
+      let t ← tok
+      pArrow
+      let ans ← pRest
+      -- "output for a fixed seed is reproducible": every given seed must take effect
+      if t = "~" then pure "n/a" else
+      pure (if ans = ["ok", "applied"] then "pass" else "fail repro")),
   ("locustags", do
       let pre ← pStr
       let step ← pInt
